@@ -343,17 +343,28 @@ func solveOne(vc *VC, o *Obligation, base string, solvers []Solver, timeoutMs in
 	}
 	var got []ans
 	nUnsat := 0
+	// once one solver has discharged the obligation, a second opinion (thorough tier) is waited
+	// for only this long: some obligations are within reach of one solver only
+	var grace <-chan time.Time
+collect:
 	for range solvers {
-		r := <-results
-		got = append(got, r)
-		if r.status == "sat" {
-			break
-		}
-		if r.status == "unsat" {
-			nUnsat++
-			if !needTwo || nUnsat >= 2 {
-				break
+		select {
+		case r := <-results:
+			got = append(got, r)
+			if r.status == "sat" {
+				break collect
 			}
+			if r.status == "unsat" {
+				nUnsat++
+				if !needTwo || nUnsat >= 2 {
+					break collect
+				}
+				if grace == nil {
+					grace = time.After(10 * time.Second)
+				}
+			}
+		case <-grace:
+			break collect
 		}
 	}
 	cancel()
